@@ -2,6 +2,7 @@ package sym
 
 import (
 	"fmt"
+	"os"
 	"sort"
 	"strings"
 	"sync"
@@ -366,11 +367,17 @@ func (in *Interp) branch(c *Term) bool {
 		return false
 	}
 	in.syncPC()
+	tq := time.Now()
 	rt := in.solver.CheckWith(c)
 	canT := rt != Unsat
 	canF := true
 	if canT {
 		canF = in.solver.CheckWith(in.tc.Not(c)) != Unsat
+	}
+	if in.ex.Verbose && time.Since(tq) > 3*time.Second {
+		fn := fmt.Sprintf("/tmp/slowb_%d.smt2", len(p.dec))
+		os.WriteFile(fn, []byte(Script(append(append([]*Term{}, p.pc...), c), false)), 0o644)
+		fmt.Printf("  SLOW-BRANCH %.1fs dec=%v script=%s\n", time.Since(tq).Seconds(), decList(p.dec), fn)
 	}
 	switch {
 	case canT && canF:
@@ -467,6 +474,9 @@ func (in *Interp) concretize(t *Term, what string) int64 {
 // modelOf evaluates a single term in the current model (after a Sat check).
 func (in *Interp) modelOf(ts []*Term) (uint64, error) {
 	t := ts[0]
+	if in.solver.standaloneModel != nil {
+		return in.tc.Eval(t, in.solver.standaloneModel, map[*Term]uint64{}), nil
+	}
 	// name the term so get-value can address it
 	n := in.solver.name(t)
 	in.solver.send("(get-value (" + n + "))\n")
@@ -632,6 +642,11 @@ func (in *Interp) assertProp(c *Term, label string) {
 	r := in.solver.Check()
 	ms := float64(time.Since(t0).Microseconds()) / 1000
 	rec := AssertRec{Label: label, Verdict: r.String(), Ms: ms, Size: nc.Size()}
+	if ms > 3000 && in.ex.Verbose {
+		fn := fmt.Sprintf("/tmp/slowq_%d.smt2", len(p.dec))
+		os.WriteFile(fn, []byte(Script(append(append([]*Term{}, p.pc...), nc), false)), 0o644)
+		fmt.Printf("  SLOW %.0fms %s verdict=%s dec=%v script=%s\n", ms, label, r, decList(p.dec), fn)
+	}
 	viol := int32(0)
 	switch r {
 	case Sat:
